@@ -88,6 +88,8 @@ type Run struct {
 	extra       func(r *Run) // scenario-specific end-of-run checks (inside the bubble, DB open)
 	harness     string
 	pmu         sync.Mutex
+	disk        *DiskTracker
+	phase       string
 }
 
 func dumpAllStacks() {
@@ -116,6 +118,12 @@ func (r *Run) aborted() bool {
 	r.mu.Lock()
 	defer r.mu.Unlock()
 	return r.abort
+}
+
+func (r *Run) setPhase(p string) {
+	r.mu.Lock()
+	r.phase = p
+	r.mu.Unlock()
 }
 
 func (r *Run) logf(format string, args ...interface{}) {
@@ -878,6 +886,12 @@ func shmDir() string {
 
 // Execute runs the case inside a fresh synctest bubble.
 func Execute(t *testing.T, c *Case, prof *Profile, keepHist bool) (out Outcome) {
+	return executeWith(t, c, prof, keepHist, nil, nil)
+}
+
+// executeWith runs the case; pre configures the Run before the bubble, post runs
+// after the bubble (outside it) and may add to the verdict.
+func executeWith(t *testing.T, c *Case, prof *Profile, keepHist bool, pre func(*Run), post func(*testing.T, *Run)) (out Outcome) {
 	runSeq++
 	dir, err := os.MkdirTemp(shmDir(), "vsim-")
 	if err != nil {
@@ -893,6 +907,9 @@ func Execute(t *testing.T, c *Case, prof *Profile, keepHist bool) (out Outcome) 
 	r.stats.Probes = map[string]uint64{}
 	os.MkdirAll(r.dir, 0o755)
 	os.MkdirAll(r.vdir, 0o755)
+	if pre != nil {
+		pre(r)
+	}
 
 	// real-time watchdog (outside the bubble)
 	doneCh := make(chan struct{})
@@ -916,6 +933,13 @@ func Execute(t *testing.T, c *Case, prof *Profile, keepHist bool) (out Outcome) 
 		synctest.Test(t, func(t *testing.T) {
 			r.bubble()
 		})
+		Uninstall()
+		if r.disk != nil {
+			r.disk.Uninstall()
+		}
+		if post != nil {
+			post(t, r)
+		}
 	}()
 	Uninstall()
 	out.Viol = r.viol
@@ -947,6 +971,10 @@ func (r *Run) bubble() {
 		return h, true
 	}
 	vhook.NowFn = func() (time.Time, bool) { return time.Now(), true }
+	if r.disk != nil {
+		r.disk.Install()
+		e.OnIO = func(gid int64, kind, path string, off, n int64) { r.disk.OnIO(kind, path, off, n) }
+	}
 
 	if err := r.open(); err != nil {
 		r.harness = "open: " + err.Error()
@@ -955,6 +983,9 @@ func (r *Run) bubble() {
 	r.prefill()
 	synctest.Wait() // everything Open started has settled before scheduling begins
 	e.Activate()
+	if r.disk != nil {
+		r.disk.Capture = true
+	}
 	for i, ops := range r.c.Clients {
 		cl := &clientState{id: i, ops: ops}
 		r.cls = append(r.cls, cl)
@@ -974,19 +1005,55 @@ func (r *Run) bubble() {
 		return true
 	}
 	res := e.Run(done, 200000)
+	stuck := false
 	if res.Deadlock {
 		r.violate([]string{"C38"}, "deadlock", "no goroutine can make progress and 90 simulated seconds changed nothing; parked: %s", res.Dump)
+		stuck = true
 	} else if res.StepBudget {
 		r.violate([]string{"C38"}, "step-budget", "run did not finish within the step budget; parked: %s", res.Dump)
+		stuck = true
 	}
-	// engine is stopped now: hooks are pass-through, everything runs freely.
-	synctest.Wait()
-	if r.extra != nil && r.viol == nil {
-		r.extra(r)
+	// Phase 2, still under the scheduler: final checks and Close run in a
+	// "closer" client, so that Close's own flushes and file operations are
+	// scheduled steps (and crash points) like everything else.
+	closed := false
+	var closeErr error
+	closer := func() {
+		e.Register("closer")
+		e.Point("client.op")
+		if r.extra != nil && r.viol == nil {
+			r.extra(r)
+		}
+		if r.viol == nil {
+			r.finalChecks()
+		}
+		e.Point("client.op")
+		r.setPhase("close")
+		closeErr = r.db.Close()
+		r.setPhase("")
+		r.mu.Lock()
+		closed = true
+		r.mu.Unlock()
 	}
-	if r.viol == nil {
-		r.finalChecks()
+	if !stuck {
+		go closer()
+		res = e.Run(func() bool {
+			r.mu.Lock()
+			defer r.mu.Unlock()
+			return closed
+		}, 400000)
+		if res.Deadlock {
+			r.violate([]string{"C38"}, "close-deadlock", "Close cannot make progress; parked: %s", res.Dump)
+			stuck = true
+		} else if res.StepBudget {
+			r.violate([]string{"C38"}, "close-step-budget", "Close did not finish within the step budget; parked: %s", res.Dump)
+			stuck = true
+		}
 	}
+	if r.disk != nil {
+		r.disk.Capture = false
+	}
+	e.Stop()
 	r.stats.Steps = e.Steps
 	r.stats.Decisions = e.Decisions
 	r.stats.Switches = e.Switches
@@ -996,20 +1063,20 @@ func (r *Run) bubble() {
 			r.stats.Probes[k] = v
 		}
 	}
-	// Iterator prefetch goroutines of the final checks must be finished before
-	// Close: valueLog.Close takes every log-file lock and never releases it, so
-	// a prefetch that is still running would block forever and keep the bubble
-	// from ending.
-	synctest.Wait()
-	cerr := make(chan error, 1)
-	go func() { cerr <- r.db.Close() }()
-	select {
-	case err := <-cerr:
-		if err != nil && r.viol == nil {
-			r.harness = "close: " + err.Error()
+	if stuck {
+		// best effort tear-down with everything running freely
+		if r.disk != nil {
+			r.disk.Every = 0
 		}
-	case <-time.After(10 * time.Minute): // simulated time
-		r.violate([]string{"C38"}, "close-hang", "Close did not return within 10 simulated minutes")
+		synctest.Wait()
+		cerr := make(chan error, 1)
+		go func() { cerr <- r.db.Close() }()
+		select {
+		case <-cerr:
+		case <-time.After(10 * time.Minute): // simulated time
+		}
+	} else if closeErr != nil && r.viol == nil {
+		r.harness = "close: " + closeErr.Error()
 	}
 	r.stats.SimTime = time.Since(r.startTime)
 }
